@@ -173,6 +173,7 @@ class World:
         self.fluents = {}
         self.params = {}
         self.ftypes = {f["name"]: f["type"] for f in decl["fluents"]}
+        self.fsigs = {f["name"]: f["sig"] for f in decl["fluents"]}
         self.ptypes = {p["name"]: p["type"] for p in decl["params"]}
         self.otypes = {o["name"]: o["type"] for o in decl["objects"]}
         self.parents = {t["name"]: t["parent"] for t in decl["types"]}
@@ -191,8 +192,11 @@ class World:
     def fluent(self, name):
         from unified_planning.model import Fluent
 
+        from unified_planning.model import Parameter
+
         if name not in self.fluents:
-            self.fluents[name] = Fluent(name, self.type(self.ftypes[name]), environment=self.env)
+            sig = [Parameter(p["name"], self.type(p["type"]), self.env) for p in self.fsigs[name]]
+            self.fluents[name] = Fluent(name, self.type(self.ftypes[name]), sig, self.env)
         return self.fluents[name]
 
     def param(self, name):
